@@ -18,6 +18,22 @@ Definition run_fields (i : val) : val :=
                           | 2 => SrcString (as_b (nth_val 2 i))
                           | _ => SrcOther end))
   | 4 => enc_route (upgrade_id (map as_b (as_l (nth_val 1 i))), false)
+  | 5 => (* the encoding side: a field made by NewID, then MarshalText -> UnmarshalText, Value -> Scan (as string
+            and as []byte), MarshalJSON -> UnmarshalJSON; enc / decoded = what encoding/json says (inputs) *)
+      let r := new_field (as_b (nth_val 1 i)) in
+      let f := fst r in
+      let enc := as_b (nth_val 2 i) in
+      let decoded := as_opt as_b (nth_val 3 i) in
+      VL [enc_route r;
+          match marshal_text f with Some b => VL [VN 1; VB b] | None => VL [VN 0; VB []] end;
+          match marshal_text f with Some b => enc_route (unmarshal_text b) | None => VL [] end;
+          match field_value f with SrcString v => VL [VN 1; VB v] | SrcNil => VL [VN 0; VB []] | _ => VL [VN 2; VB []] end;
+          enc_route (scan (field_value f));
+          enc_route (scan (field_value_bytes f));
+          (* what the document denotes: null, or the string encoding/json reads from it *)
+          (if bytes_eqb (marshal_json f enc) json_null then VL [VN 0]
+           else match decoded with Some d => VL [VN 1; VB d] | None => VL [VN 2] end);
+          enc_route (unmarshal_json (marshal_json f enc) decoded)]
   | _ => VL []
   end.
 
@@ -32,7 +48,23 @@ Definition fields_input_text (i : val) : option bytes :=
   end.
 
 (* routes 0-3 report an error; the header route (4) has none *)
+(* route 5, from the property (and nothing beyond it): every value met on the way - the one the constructor made and
+   the ones the decoders gave back after the detour through text, a driver value or JSON - is single-line when it
+   reports IsSet, and a multi-line input leaves the constructor's value unset with an error.  That the detours give
+   the SAME value back is the model's statement (C14_*_roundtrip), checked by the correspondence, not demanded here. *)
+Definition route_single (r : val) : bool :=
+  match r with
+  | VL (s :: v :: _) => implb (as_bool s) (no_nlb (as_b v))
+  | _ => true
+  end.
+Definition holds_fields_enc (i o : val) : bool :=
+  let orig := nth_val 0 o in
+  route_single orig && route_single (nth_val 2 o) && route_single (nth_val 4 o) && route_single (nth_val 5 o) &&
+  route_single (nth_val 7 o) &&
+  (if no_nlb (as_b (nth_val 1 i)) then true else negb (as_bool (nth_val 0 orig)) && as_bool (nth_val 2 orig)).
+
 Definition holds_fields (i o : val) : bool :=
+  if as_n (nth_val 0 i) =? 5 then holds_fields_enc i o else
   let set := as_bool (nth_val 0 o) in
   let v := as_b (nth_val 1 o) in
   let err := as_bool (nth_val 2 o) in
